@@ -169,6 +169,10 @@ def jobs(tier, seed):
             if inexact:
                 cfg['float_inexact'] = True
             js.append({'harness': 'stamp', 'cfg': cfg, 'weight': 10})
+    # equal stamps, different arrival instants, creation times in the opposite order
+    for kind, t in (('VC', {0: 2, 1: 1}), ('VC', {0: 1, 1: 1}), ('WFQ', {0: 1, 1: 1})):
+        js.append({'harness': 'stamp', 'weight': 10,
+                   'cfg': {'kind': kind, 'rate': 8, 'table': t, 'flows': [0, 1, 1, 0], 'sorts': 'int', 'ctime': 'reversed'}})
     # another line rate
     for kind, t in (('WFQ', {0: 1, 1: 1}), ('VC', {0: 1, 1: 2})):
         js.append({'harness': 'stamp', 'weight': 10,
